@@ -16,6 +16,57 @@ pub fn no_escape(_b: &[u8]) -> String {
     String::new()
 }
 
+/// Reference UTF-8 validator (Unicode 15, table 3-7 "well-formed UTF-8 byte sequences") standing in
+/// for `core::str::from_utf8`.  std's implementation reads the input word-wise after an
+/// `align_offset` on the (symbolic) address, which costs CBMC more than everything under test;
+/// std is not under test.  The error payload (`valid_up_to`, `error_len`) is NOT modelled - the
+/// code under test only asks `is_err()`.
+pub fn utf8_model(v: &[u8]) -> Result<&str, core::str::Utf8Error> {
+    let n = v.len();
+    let mut i = 0;
+    let mut ok = true;
+    while i < n {
+        let b = v[i];
+        if b < 0x80 {
+            i += 1;
+            continue;
+        }
+        let (len, lo, hi): (usize, u8, u8) = match b {
+            0xC2..=0xDF => (2, 0x80, 0xBF),
+            0xE0 => (3, 0xA0, 0xBF),
+            0xE1..=0xEC | 0xEE..=0xEF => (3, 0x80, 0xBF),
+            0xED => (3, 0x80, 0x9F),
+            0xF0 => (4, 0x90, 0xBF),
+            0xF1..=0xF3 => (4, 0x80, 0xBF),
+            0xF4 => (4, 0x80, 0x8F),
+            _ => {
+                ok = false;
+                break;
+            }
+        };
+        if i + len > n || v[i + 1] < lo || v[i + 1] > hi {
+            ok = false;
+            break;
+        }
+        if len >= 3 && (v[i + 2] < 0x80 || v[i + 2] > 0xBF) {
+            ok = false;
+            break;
+        }
+        if len == 4 && (v[i + 3] < 0x80 || v[i + 3] > 0xBF) {
+            ok = false;
+            break;
+        }
+        i += len;
+    }
+    if ok {
+        Ok(unsafe { core::str::from_utf8_unchecked(v) })
+    } else {
+        // an error value of the real type, obtained from a function that is not stubbed
+        let mut bad = [0xFFu8];
+        Err(core::str::from_utf8_mut(&mut bad).err().unwrap())
+    }
+}
+
 /// `proof!(UNWIND, fn name() { .. })` expands to a Kani proof harness with the three
 /// logging/formatting stubs applied and the given global unwind bound.
 #[macro_export]
@@ -26,6 +77,7 @@ macro_rules! proof {
         #[kani::stub(iceoryx2_log::__internal_print_log_msg, crate::common::no_log)]
         #[kani::stub(alloc::fmt::format, crate::common::empty_format)]
         #[kani::stub(iceoryx2_bb_container::string::as_escaped_string, crate::common::no_escape)]
+        #[kani::stub(core::str::from_utf8, crate::common::utf8_model)]
         pub fn $name() $body
     };
 }
@@ -40,6 +92,7 @@ macro_rules! proof_copy {
         #[kani::stub(iceoryx2_log::__internal_print_log_msg, crate::common::no_log)]
         #[kani::stub(alloc::fmt::format, crate::common::empty_format)]
         #[kani::stub(iceoryx2_bb_container::string::as_escaped_string, crate::common::no_escape)]
+        #[kani::stub(core::str::from_utf8, crate::common::utf8_model)]
         #[kani::stub(core::ptr::copy_nonoverlapping, $copy)]
         pub fn $name() $body
     };
